@@ -280,6 +280,15 @@ ToFmt(x, g) == IF ~x.ok THEN x
                ELSE IF x.cls = "float" THEN FVal(g, Conv(FmtOf(x.fmt), FmtOf(g), x.bits))
                ELSE FVal(g, IntToF(FmtOf(g), x.z))
 
+\* a float value converted to an integer the way numpy.int64(x) / a C++ conversion does: truncation
+FloatToInt(x) ==
+  IF ~x.ok \/ x.cls # "float" THEN x
+  ELSE LET f == FmtOf(x.fmt)
+       IN  IF ~IsFinite(f, x.bits) THEN NoVal
+           ELSE IF IsZero(f, x.bits) THEN IVal(ZZero)
+           ELSE LET d == Val(f, x.bits)
+                IN  IF d[2] >= 0 THEN IVal(ZShl(d[1], d[2])) ELSE IVal(ZMk(d[1][1], NShr(d[1][2], -d[2])))
+
 \* numpy / C++ type name -> float format name ("" if not a float type name)
 FloatFmtOfName(target, T) ==
   CASE target = "numpy" /\ T \in {"numpy.float16", "numpy.half"} -> "float16"
@@ -317,6 +326,9 @@ RowVal(target, rows, i) ==
            [] o = "name:sys.float_info.min" -> FVal("float64", MinNormalMag(F64))
            [] o = "name:sys.float_info.epsilon" -> FVal("float64", NamedBits(F64, "eps"))
            [] o = "call:float" /\ Len(r.a) = 1 -> ToFmt(RowVal(target, rows, r.a[1]), "float64")
+           [] o = "call:math.ulp" /\ Len(r.a) = 1 ->    \* ulp(0.0) is the smallest positive subnormal
+                (LET x == RowVal(target, rows, r.a[1])
+                 IN  IF x.ok /\ x.cls = "float" /\ IsZero(F64, x.bits) THEN FVal("float64", NOne) ELSE NoVal)
            [] OTHER -> NoVal)
       ELSE IF target = "numpy" THEN
         (CASE o = "name:numpy.inf" -> FVal("float64", PosInf(F64))
@@ -324,7 +336,11 @@ RowVal(target, rows, i) ==
            [] o = "name:numpy.pi" -> FVal("float64", RN(F64, PiD))
            [] Prefix(o, 5) = "call:" /\ Len(r.a) = 1 /\ FloatFmtOfName("numpy", SubSeq(o, 6, Len(o))) # "" ->
                 ToFmt(RowVal(target, rows, r.a[1]), FloatFmtOfName("numpy", SubSeq(o, 6, Len(o))))
-           [] o = "call:numpy.bool_" /\ Len(r.a) = 1 -> RowVal(target, rows, r.a[1])
+           [] o \in {"call:numpy.bool_", "call:numpy.bool"} /\ Len(r.a) = 1 -> RowVal(target, rows, r.a[1])
+           [] o \in {"call:numpy.complex64", "call:numpy.complex128"} /\ Len(r.a) = 1 ->
+                ToFmt(RowVal(target, rows, r.a[1]), IF o = "call:numpy.complex64" THEN "float32" ELSE "float64")
+           [] o \in {"call:numpy.int8", "call:numpy.int16", "call:numpy.int32", "call:numpy.int64"} /\ Len(r.a) = 1 ->
+                (LET x == RowVal(target, rows, r.a[1]) IN IF x.ok /\ x.cls = "int" THEN x ELSE FloatToInt(x))
            [] Prefix(o, 5) = "attr:" /\ rows[r.a[1]].o = "call:numpy.finfo" /\ Len(rows[r.a[1]].a) = 1 ->
                 (LET tn == rows[rows[r.a[1]].a[1]].o
                      g == IF Prefix(tn, 5) = "name:" THEN FloatFmtOfName("numpy", SubSeq(tn, 6, Len(tn))) ELSE ""
@@ -362,9 +378,11 @@ NodeVal(target, n) ==
   IN  IF v.c = "named" THEN
         (IF v.name \in KnownNames /\ IsFloatT(n.t) THEN FVal(g, NamedBits(FmtOf(g), v.name)) ELSE NoVal)
       ELSE IF ~raw.ok THEN NoVal
-      ELSE IF target = "python" THEN raw
+      ELSE IF target = "python" THEN (IF raw.cls = "float" THEN ToFmt(raw, "float64") ELSE raw)
       ELSE IF IsFloatT(n.t) THEN ToFmt(raw, g)
+      ELSE IF IsComplexT(n.t) /\ raw.cls \in {"float", "int"} THEN ToFmt(raw, g)
       ELSE IF IsIntT(n.t) /\ raw.cls \in {"int", "bool"} THEN IVal(raw.z)
+      ELSE IF IsIntT(n.t) /\ raw.cls = "float" THEN FloatToInt(raw)
       ELSE IF n.t = "boolean" /\ raw.cls = "bool" THEN raw
       ELSE NoVal
 
@@ -457,7 +475,8 @@ AssignIdx(prog, v) == {j \in 1..Len(prog.stmts) : prog.stmts[j].op = "assign" /\
 MinOf(S) == CHOOSE x \in S : \A y \in S : x <= y
 \* symbol node of a parameter name ({} if the graph does not use the argument)
 ParamNodes(nodes, name) == {m \in 1..Len(nodes) : nodes[m].k = "symbol" /\ nodes[m].n = name}
-Top(nodes) == 1..Len(nodes)
+\* "denotes anything" (after a reported failure): all node ids and the non-id 0, so that it differs from every real denotation
+Top(nodes) == 0..Len(nodes)
 Fail(clause, i, what) == <<clause, i, what>>
 ConstNodes(nodes) == {m \in 1..Len(nodes) : nodes[m].k = "constant"}
 
@@ -468,7 +487,9 @@ RECURSIVE DefMap(_, _, _)
 DefMap(prog, j, acc) ==
   IF j > Len(prog.stmts) THEN acc
   ELSE LET s == prog.stmts[j]
-       IN  DefMap(prog, j + 1, IF s.op = "assign" /\ s.var \notin DOMAIN acc THEN acc @@ (s.var :> s.t) ELSE acc)
+       IN  DefMap(prog, j + 1, IF s.op # "assign" THEN acc
+                                ELSE IF s.var \in DOMAIN acc THEN [acc EXCEPT ![s.var] = Append(@, s.t)]
+                                ELSE acc @@ (s.var :> <<s.t>>))
 RECURSIVE NodeVals(_, _, _, _)
 NodeVals(target, nodes, m, acc) ==
   IF m > Len(nodes) THEN acc
@@ -485,7 +506,10 @@ Context(target, nodes, impl, prog) ==
        topops |-> tops,
        transp |-> {m \in 1..Len(nodes) : "hole" \in tops[m] /\ Len(nodes[m].a) = 1},
        opnodes |-> {m \in 1..Len(nodes) : nodes[m].k \notin {"symbol", "constant"}}]
-DefRow(cx, v) == IF v \in DOMAIN cx.defs THEN cx.defs[v] ELSE 0
+\* the assignment of v that reaches row i: the last one whose right-hand side ends before i (0: none)
+RECURSIVE LastBelow(_, _, _)
+LastBelow(ts, i, j) == IF j = 0 THEN 0 ELSE IF ts[j] < i THEN ts[j] ELSE LastBelow(ts, i, j - 1)
+DefRow(cx, v, i) == IF v \in DOMAIN cx.defs THEN LastBelow(cx.defs[v], i, Len(cx.defs[v])) ELSE 0
 
 \* closure of a candidate set under kinds realised by NOTHING (pattern = the bare hole, e.g. unary plus in C++)
 RECURSIVE CloseTransparent(_, _)
@@ -499,6 +523,18 @@ ConstFailure(cx, t) ==
   LET rv == RowVal(cx.target, cx.prog.rows, t)
       sameNumber == {m \in cx.consts : ConstNumberOnly(cx.nvals[m], rv)}
   IN  IF sameNumber # {} THEN "constant_type" ELSE "constant_value"
+
+\* constant expressions with an imaginary literal (Python: (1.5-2j), numpy.complex64((1.5-2j))) are not
+\* interpreted by the spec: accepted as denoting any constant node of complex type (leniency)
+RECURSIVE CplxShape(_, _), HasImag(_, _)
+CplxCtors == {"call:complex", "call:numpy.complex64", "call:numpy.complex128", "call:std::complex<float>", "call:std::complex<double>"}
+CplxShape(rows, i) ==
+  LET r == rows[i]
+  IN  \/ r.o = "lit"
+      \/ r.o \in {"un:-", "un:+", "bin:+", "bin:-", "cast:float", "cast:double"} \cup CplxCtors
+           /\ Len(r.a) >= 1 /\ \A j \in 1..Len(r.a) : CplxShape(rows, r.a[j])
+HasImag(rows, i) == (rows[i].o = "lit" /\ rows[i].s = "imag") \/ \E j \in 1..Len(rows[i].a) : HasImag(rows, rows[i].a[j])
+CplxConst(rows, i) == rows[i].o # "lit" /\ CplxShape(rows, i) /\ (HasImag(rows, i) \/ rows[i].o \in {"call:std::complex<float>", "call:std::complex<double>"})
 
 \* Denotation d of row i and the PENDING failures f of its sub-tree.  Failures stay pending until the
 \* row is known to stand at an operand position (hole) of a matched parent or to be a whole statement
@@ -514,30 +550,52 @@ DenRow(cx, st, i) ==
   IN  IF r.o = "var" THEN
         (IF r.s \in cx.pnames THEN
             [d |-> CloseTransparent(cx, ParamNodes(nodes, r.s)), f |-> {}]
-         ELSE LET d == DefRow(cx, r.s)
-              IN  IF d = 0 \/ d >= i THEN [d |-> Top(nodes), f |-> {Fail("def_before_use", i, r.s)}]
+         ELSE LET d == DefRow(cx, r.s, i)
+              IN  IF d = 0 THEN [d |-> Top(nodes), f |-> {Fail("def_before_use", i, r.s)}]
                   ELSE [d |-> ds[d], f |-> {}])
       ELSE
         LET rv == RowVal(cx.target, rows, i)
-            consts == IF rv.ok THEN {m \in cx.consts : ConstDenotes(cx.target, cx.nvals[m], rv)} ELSE {}
+            \* constant nodes whose stored value the driver could not encode (long double, alt-context ...) are not judged
+            consts == IF rv.ok THEN {m \in cx.consts : ConstDenotes(cx.target, cx.nvals[m], rv) \/ nodes[m].v.c = "unsupported"} ELSE {}
             cands == {m \in cx.opnodes : r.o \in cx.topops[m]}
-            fits(m, p) == LET b == Bind(rows, p, i) IN b # NoBind /\ b # <<>> /\ FitsExact(nodes[m], b, ds)
+            fits(m, p) == p.o # "hole" /\ LET b == Bind(rows, p, i) IN b # NoBind /\ b # <<>> /\ FitsExact(nodes[m], b, ds)
             ops == {m \in cands : \E p \in impl[m] : fits(m, p)}
-        IN  IF consts # {} THEN [d |-> CloseTransparent(cx, consts \cup ops), f |-> {}]
-            ELSE IF ops # {} THEN
-              LET mm == CHOOSE m \in ops : TRUE
-                  pp == CHOOSE p \in impl[mm] : fits(mm, p)
-                  b == Bind(rows, pp, i)
-              IN  [d |-> CloseTransparent(cx, ops), f |-> UNION {pf[b[q][2]] : q \in 1..Len(b)}]
+            \* pending failures confirmed by matching node m through pattern p: those of the rows bound to holes
+            pend(m, p) == LET b == Bind(rows, p, i) IN UNION {pf[b[q][2]] : q \in 1..Len(b)}
+            best(m) == LET ps == {p \in impl[m] : fits(m, p)}
+                       IN  CHOOSE p \in ps : \A q \in ps : Cardinality(pend(m, p)) <= Cardinality(pend(m, q))
+            \* T(p) with p a parameter and T the name of p's own declared type is the argument itself (identity cast)
+            argcast == IF Len(r.a) = 1 /\ rows[r.a[1]].o = "var" /\ rows[r.a[1]].s \in cx.pnames /\ Prefix(r.o, 5) = "call:"
+                       THEN {m \in ParamNodes(nodes, rows[r.a[1]].s) : SubSeq(r.o, 6, Len(r.o)) \in TypeNames(cx.target, nodes[m].t)}
+                       ELSE {}
+        IN  IF argcast # {} THEN [d |-> CloseTransparent(cx, argcast \cup ops), f |-> {}]
+            ELSE IF consts # {} THEN [d |-> CloseTransparent(cx, consts \cup ops), f |-> {}]
+            ELSE IF CplxConst(rows, i) THEN
+              [d |-> CloseTransparent(cx, {m \in cx.consts : IsComplexT(nodes[m].t)} \cup {m \in ops : pend(m, best(m)) = {}}), f |-> {}]
+            \* (a constant expression is matched as an operation only when that confirms no failure of its parts:
+            \*  `-(1.5)` whose literal denotes nothing is a failed constant, not the negation of anything)
+            ELSE IF ops # {} /\ (~rv.ok \/ \E m \in ops : pend(m, best(m)) = {}) THEN
+              \* several nodes may fit when failed sub-terms denote anything: keep those that confirm fewest failures
+              LET least == CHOOSE m \in ops : \A m2 \in ops : Cardinality(pend(m, best(m))) <= Cardinality(pend(m2, best(m2)))
+                  k == Cardinality(pend(least, best(least)))
+                  keep == {m \in ops : Cardinality(pend(m, best(m))) = k}
+              IN  [d |-> CloseTransparent(cx, keep), f |-> pend(least, best(least))]
             ELSE IF rv.ok THEN
               [d |-> Top(nodes), f |-> {Fail(ConstFailure(cx, i), i, r.o)}]
             ELSE
-              LET cand(F(_, _)) == {m \in cands : \E p \in impl[m] : LET b == Bind(rows, p, i) IN b # NoBind /\ b # <<>> /\ F(nodes[m], b)}
+              LET cand(F(_, _)) == {m \in cands : \E p \in impl[m] : p.o # "hole" /\ LET b == Bind(rows, p, i) IN b # NoBind /\ b # <<>> /\ F(nodes[m], b)}
                   permuted == cand(LAMBDA n, b : FitsPermuted(n, b, ds))
                   relaxed == cand(LAMBDA n, b : FitsRelaxed(n, b, ds, rows))
                   below == UNION {pf[r.a[j]] : j \in 1..Len(r.a)}
-              IN  IF permuted # {} THEN [d |-> permuted, f |-> below \cup {Fail("operand_order", i, r.o)}]
-                  ELSE IF relaxed # {} THEN [d |-> relaxed, f |-> below \cup {Fail("distinct_share", i, r.o)}]
+              IN  IF \E x \in below : x[1] = "def_before_use" THEN [d |-> Top(nodes), f |-> below]   \* an undefined name: the enclosing term is not judged again
+                  ELSE IF permuted # {} THEN [d |-> permuted, f |-> below \cup {Fail("operand_order", i, r.o)}]
+                  ELSE IF relaxed # {} THEN
+                    \* name the variable(s) standing where another node is required
+                    LET m == CHOOSE x \in relaxed : TRUE
+                        p == CHOOSE q \in impl[m] : q.o # "hole" /\ LET b == Bind(rows, q, i) IN b # NoBind /\ b # <<>> /\ FitsRelaxed(nodes[m], b, ds, rows)
+                        b == Bind(rows, p, i)
+                        wrong == {rows[b[q][2]].s : q \in {qq \in 1..Len(b) : rows[b[qq][2]].o = "var" /\ nodes[m].a[b[qq][1]] \notin ds[b[qq][2]]}}
+                    IN  [d |-> relaxed, f |-> below \cup {Fail("distinct_share", i, v) : v \in wrong}]
                   ELSE [d |-> Top(nodes), f |-> below \cup {Fail("operator", i, r.o)}]
 
 RECURSIVE DenAll(_, _, _)
@@ -573,7 +631,7 @@ RunProgram(target, nodes, root, impl, prog) ==
               [] s.op = "assert" ->
                    (LET defined == s.var \in ParamNames(prog) \/ \E k \in 1..(j - 1) : prog.stmts[k].op = "assign" /\ prog.stmts[k].var = s.var
                         den == IF s.var \in ParamNames(prog) THEN ParamNodes(nodes, s.var)
-                               ELSE IF DefRow(cx, s.var) = 0 THEN {} ELSE ds[DefRow(cx, s.var)]
+                               ELSE IF DefRow(cx, s.var, Len(prog.rows) + 1) = 0 THEN {} ELSE ds[DefRow(cx, s.var, Len(prog.rows) + 1)]
                     IN  IF ~defined THEN {Fail("assert_target", 0, s.var)}
                         ELSE IF den # {} /\ den # Top(nodes) /\ \A m \in den : TypeNames(target, nodes[m].t) # {} /\ s.ty \notin TypeNames(target, nodes[m].t)
                              THEN {Fail("assert_target", 0, s.var)} ELSE {})
@@ -602,7 +660,9 @@ CppFloatRank(t) == CASE t = "long double" -> 3 [] t = "double" -> 2 [] t = "floa
 CppIsInt(t) == t \in {"int", "long", "long long", "bool", "int8_t", "int16_t", "int32_t", "int64_t", "unsigned", "unsigned long",
                       "unsigned long long", "std::int8_t", "std::int16_t", "std::int32_t", "std::int64_t"}
 CppPromote(t) == IF t \in {"bool", "int8_t", "int16_t", "int32_t", "std::int8_t", "std::int16_t", "std::int32_t"} THEN "int"
-                 ELSE IF t \in {"int64_t", "std::int64_t"} THEN "long" ELSE t
+                 ELSE IF t \in {"int64_t", "std::int64_t", "long long"} THEN "long" ELSE t
+\* one spelling per type (LP64)
+CppCanon(t) == IF t \in {"int32_t", "std::int32_t"} THEN "int" ELSE IF t \in {"int64_t", "std::int64_t", "long long"} THEN "long" ELSE t
 CppIsComplex(t) == Prefix(t, 13) = "std::complex<"
 CppPart(t) == IF CppIsComplex(t) THEN SubSeq(t, 14, Len(t) - 1) ELSE t
 CppUAC(a, b) ==
@@ -624,8 +684,8 @@ CppRowType(prog, ct, i) ==
       o == r.o
       c(j) == ct[r.a[j]]
       callee == IF Prefix(o, 5) = "call:" THEN SubSeq(o, 6, Len(o)) ELSE ""
-  IN  CASE o = "var" -> VarType(prog, r.s)
-        [] o = "lit" -> r.s
+  IN  CASE o = "var" -> CppCanon(VarType(prog, r.s))
+        [] o = "lit" -> CppCanon(r.s)
         [] o = "name:M_PI" -> "double"
         [] o \in {"name:NAN", "name:INFINITY"} -> "float"
         [] o \in {"un:-", "un:+", "un:~"} -> (IF CppIsInt(c(1)) THEN CppPromote(c(1)) ELSE c(1))
@@ -634,8 +694,11 @@ CppRowType(prog, ct, i) ==
         [] o \in {"bin:<", "bin:<=", "bin:>", "bin:>=", "bin:==", "bin:!=", "bin:&&", "bin:||"} -> "bool"
         [] o \in {"bin:&", "bin:|", "bin:^"} -> CppUAC(c(1), c(2))
         [] o \in {"bin:<<", "bin:>>"} -> CppPromote(c(1))
-        [] o = "cond" -> (IF c(2) = c(3) THEN c(2) ELSE CppUAC(c(2), c(3)))
-        [] Prefix(o, 5) = "cast:" -> SubSeq(o, 6, Len(o))
+        [] o = "cond" -> (IF c(2) = c(3) THEN c(2)
+                          ELSE IF CppIsComplex(c(2)) /\ ~CppIsComplex(c(3)) THEN (IF c(3) = "?" THEN "?" ELSE c(2))
+                          ELSE IF CppIsComplex(c(3)) /\ ~CppIsComplex(c(2)) THEN (IF c(2) = "?" THEN "?" ELSE c(3))
+                          ELSE CppUAC(c(2), c(3)))
+        [] Prefix(o, 5) = "cast:" -> CppCanon(SubSeq(o, 6, Len(o)))
         [] o \in {"mcall:real", "mcall:imag"} /\ Len(r.a) = 1 -> (IF CppIsComplex(c(1)) THEN CppPart(c(1)) ELSE "?")
         [] callee \in {"std::real", "std::imag"} /\ Len(r.a) = 1 -> (IF CppIsComplex(c(1)) THEN CppPart(c(1)) ELSE "?")
         [] callee = "std::abs" /\ Len(r.a) = 1 -> (IF CppIsComplex(c(1)) THEN CppPart(c(1)) ELSE IF CppIsInt(c(1)) THEN CppPromote(c(1)) ELSE c(1))
@@ -658,18 +721,28 @@ CppTypes(prog, ct, i) == IF i > Len(prog.rows) THEN ct ELSE CppTypes(prog, Appen
 \* evaluated in n's type - a `float` node evaluated in `double` is not the graph any more.
 CppTypingFails(nodes, prog, ds) ==
   LET ct == CppTypes(prog, <<>>, 1)
-      bad(i) == LET r == prog.rows[i]
-                    d == ds[i]
-                IN  /\ r.o \notin {"var"} /\ d # {} /\ d # Top(nodes) /\ ct[i] \notin {"?"}
-                    /\ \A m \in d : /\ TypeNames("cpp", nodes[m].t) # {}
-                                    /\ ct[i] \notin TypeNames("cpp", nodes[m].t)
-                                    \* an integer / boolean valued text for a float node is converted exactly where it is used
-                                    /\ ~(r.o = "lit" /\ CppIsInt(ct[i]))
+      names(m) == {CppCanon(x) : x \in TypeNames("cpp", nodes[m].t)}
+      isConst(i) == RowVal("cpp", prog.rows, i).ok
+      \* a constant expression of integer / narrower floating type, or the real part type of a complex node,
+      \* is converted exactly where it is used
+      harmless(i, m) == isConst(i) /\ (\/ CppIsInt(ct[i])
+                                       \/ \E x \in names(m) : CppFloatRank(ct[i]) > 0 /\ CppFloatRank(ct[i]) < CppFloatRank(x))
+      judged(i) == /\ prog.rows[i].o # "var" /\ ds[i] # {} /\ ds[i] # Top(nodes) /\ ct[i] # "?"
+                   /\ \A m \in ds[i] : nodes[m].v.c # "unsupported"
+      \* the text denotes an OPERATION node of another type ...
+      opbad(i) == \E m \in ds[i] : nodes[m].k \notin {"constant", "symbol"} /\ names(m) # {} /\ ct[i] \notin names(m)
+      \* ... or only constant nodes, each of another type, and the conversion is not exact
+      constbad(i) == /\ \A m \in ds[i] : nodes[m].k = "constant"
+                     /\ \A m \in ds[i] : names(m) # {} /\ ct[i] \notin names(m) /\ ~harmless(i, m)
+      \* sub-terms of a constant expression (the literal inside a cast / a constructor) are not terms of their own
+      interior == UNION {{prog.rows[i].a[j] : j \in 1..Len(prog.rows[i].a)} : i \in {ii \in 1..Len(prog.rows) : isConst(ii) \/ CplxConst(prog.rows, ii)}}
+      bad(i) == judged(i) /\ i \notin interior /\ (opbad(i) \/ constbad(i))
       \* a literal that initialises a variable of the node's type is converted to it: only inline uses count
       inits == {prog.stmts[j].t : j \in {jj \in 1..Len(prog.stmts) : prog.stmts[jj].op = "assign"}}
       neginits == {prog.rows[t].a[1] : t \in {tt \in inits : prog.rows[tt].o = "un:-"}}
-      tyOf(i) == nodes[CHOOSE m \in ds[i] : TRUE].t
-  IN  {Fail(IF ct[i] = "ill-formed" THEN "ill_formed" ELSE IF RowVal("cpp", prog.rows, i).ok THEN "constant_type" ELSE "computed_type",
+      tyOf(i) == nodes[IF opbad(i) THEN CHOOSE m \in ds[i] : nodes[m].k \notin {"constant", "symbol"} /\ ct[i] \notin names(m)
+                       ELSE CHOOSE m \in ds[i] : TRUE].t
+  IN  {Fail(IF ct[i] = "ill-formed" THEN "ill_formed" ELSE IF constbad(i) THEN "constant_type" ELSE "computed_type",
             i, tyOf(i) \o " as " \o ct[i])
          : i \in {ii \in 1..Len(prog.rows) : bad(ii) /\ ~(ii \in inits \cup neginits /\ RowVal("cpp", prog.rows, ii).ok)}}
 =============================================================================
